@@ -8,7 +8,7 @@ from av.props import simprop
 MANIFEST_ENTRY = {
     "category": "exploration",
     "technique": "offline junction-split oracle on every recorded step plus a hooked snapshot before/after the start-up flush compared with an independent push-down through the junction DAG; generated and shipped (corpus) models",
-    "text": "For every junction and step of every run the recorded outflows are compared with inflow x proportion (normalised; residual rule incl. sums above 1), the junction content is checked to be 0 at every index, and the state before and after Model.flush_junctions (hooked from the harness, with the proportions in force at that moment) is compared with an independent push of the initial junction contents through chains, fans and diamonds, total preserved. Generated workloads force initialised junctions, junction->junction chains, residual outflows, proportions that are constant / time-varying / functions of state, sums <1, =1, >1 and exact zeros; the evidence counts each regime reached. Every 8th case is a model shipped with the repository (49 library / fixture framework-databook(-program book) combinations and 18 fixture frameworks with a generated databook: several population types, interactions, derivative parameters, hand-made junction and duration-group layouts) run under perturbation: other step sizes and horizons, calibration factors from mild to hostile, program books switched on at arbitrary years with scaled budgets. About a third of the generated runs carry a generated program set (program-driven rates, numbers and junction proportions, boundary outcomes of exactly 0). Proportions that are functions of compartments / characteristics are recomputed on the pre-flush snapshot with the independent evaluator and compared with what the start-up flush used. The corpus contains junction fixtures written out for two population types (residual junction links in both).",
+    "text": "For every junction and step of every run the recorded outflows are compared with inflow x proportion (normalised; residual rule incl. sums above 1), the junction content is checked to be 0 at every index, and the state before and after Model.flush_junctions (hooked from the harness, with the proportions in force at that moment) is compared with an independent push of the initial junction contents through chains, fans and diamonds, total preserved. Generated workloads force initialised junctions, junction->junction chains, residual outflows, proportions that are constant / time-varying / functions of state, sums <1, =1, >1 and exact zeros; the evidence counts each regime reached. Every 8th case is a model shipped with the repository (49 library / fixture framework-databook(-program book) combinations and 18 fixture frameworks with a generated databook: several population types, interactions, derivative parameters, hand-made junction and duration-group layouts) run under perturbation: other step sizes and horizons, calibration factors from mild to hostile, program books switched on at arbitrary years with scaled budgets. About a third of the generated runs carry a generated program set (program-driven rates, numbers and junction proportions, boundary outcomes of exactly 0). Proportions that are functions of compartments / characteristics are recomputed on the pre-flush snapshot with the independent evaluator and compared with what the start-up flush used. The corpus contains junction fixtures written out for two population types (residual junction links in both). 12% of the generated junction outflow cells hold two parameters (parallel links into the same compartment).",
     "note": "Start-up snapshot uses a harness-side wrapper on Model.flush_junctions; if that internal name disappears the sub-claim is reported inconclusive and the per-step oracle (public Result surface) still decides.",
 }
 
